@@ -57,6 +57,8 @@ pub struct Scenario {
     pub script: Option<String>,
     /// the injected run-panics fire at the END of `run`, after the system has written through its guards
     pub panic_late: bool,
+    /// the injected panics carry a typed (non-string) payload
+    pub panic_typed: bool,
     /// where the user-supplied pool is handed to the builder: 0 = before the registrations, 1 = after them,
     /// 2 = before them but after a one-thread decoy pool (the later `add_pool` replaces the earlier one)
     pub pool_placement: u8,
@@ -66,7 +68,7 @@ pub struct Scenario {
 
 impl Scenario {
     pub fn plain(ops: Vec<Op>, mode: Mode, dispatches: u8) -> Scenario {
-        Scenario { ops, mode, dispatches, user_pool: None, default_threads: None, panics: vec![], rendezvous: None, foreign_pool: None, script: None, panic_late: false, pool_placement: 0, script_in_pool: false }
+        Scenario { ops, mode, dispatches, user_pool: None, default_threads: None, panics: vec![], rendezvous: None, foreign_pool: None, script: None, panic_late: false, panic_typed: false, pool_placement: 0, script_in_pool: false }
     }
 
     pub fn to_json(&self) -> Value {
@@ -82,6 +84,7 @@ impl Scenario {
             "script": self.script,
             "foreign_pool": self.foreign_pool,
             "panic_late": self.panic_late,
+            "panic_typed": self.panic_typed,
             "pool_placement": self.pool_placement,
             "script_in_pool": self.script_in_pool,
         })
@@ -109,6 +112,7 @@ impl Scenario {
             script: v.get("script").and_then(|x| x.as_str()).map(|x| x.to_string()),
             foreign_pool: v.get("foreign_pool").and_then(|x| x.as_u64()).map(|x| x as usize),
             panic_late: v.get("panic_late").and_then(|x| x.as_bool()).unwrap_or(false),
+            panic_typed: v.get("panic_typed").and_then(|x| x.as_bool()).unwrap_or(false),
             pool_placement: v.get("pool_placement").and_then(|x| x.as_u64()).unwrap_or(0) as u8,
             script_in_pool: v.get("script_in_pool").and_then(|x| x.as_bool()).unwrap_or(false),
         })
@@ -230,6 +234,7 @@ pub fn run_scenario(sc: &Scenario, twin: bool) -> ExecOut {
     let ctx = Ctx::new(info.n(), Ctx::identity_map());
     let mut out = ExecOut::default();
     out.main_task = if rayon::verif::controlled() { shuttle::current::get_current_task().map(usize::from).unwrap_or(0) as u16 } else { 0 };
+    ctx.typed_panics.store(sc.panic_typed, std::sync::atomic::Ordering::Relaxed);
     {
         let mut b = ctx.beh.lock().unwrap();
         for (id, at_fetch) in &sc.panics {
@@ -1051,6 +1056,10 @@ pub fn analyze_async(sc: &Scenario, info: &PlanInfo, out: &ExecOut) -> Vec<Viol>
     if let Some(x) = all_done(&begun, &ended, issued) {
         if out.results.iter().all(|r| r.is_none()) {
             vs.push(v("C15", "not-exactly-once", format!("after the script, system {} has run {} times for {} dispatches", x, begun[x], issued)));
+            if sc.panics.is_empty() {
+                // the same fact under "k dispatches run every system k times": a dispatch() call that returned is a dispatch
+                vs.push(v("C04", "async-dispatches-not-all-carried-out", format!("{} dispatch() calls returned and the script's final world() returned, but system {} has run {} times", issued, x, begun[x])));
+            }
         }
     }
     vs
